@@ -24,6 +24,7 @@ type Program struct {
 	Funcs    map[string]*ssa.Function // by full name (fn.String())
 	Overlay  map[string][]byte
 	OverlayFiles map[string]string // virtual path -> real path (for replay -overlay)
+	DroppedHarness map[string]string // harness file that does not compile against the tree under test -> first error
 	LoadSecs float64
 	fieldIdx map[*types.Struct]map[string]int
 }
@@ -66,29 +67,55 @@ func Load(repoDir, harnessDir string) (*Program, error) {
 		return nil, err
 	}
 	env := append(os.Environ(), "GOFLAGS=-mod=mod", "GOPROXY=off")
-	cfg := &packages.Config{
-		Mode:    packages.LoadAllSyntax,
-		Dir:     repoDir,
-		Overlay: ov,
-		Env:     env,
-		Tests:   false,
-	}
-	pkgs, err := packages.Load(cfg, "./src/...")
-	if err != nil {
-		return nil, err
-	}
-	var errs []string
-	packages.Visit(pkgs, nil, func(p *packages.Package) {
-		for _, e := range p.Errors {
-			errs = append(errs, e.Error())
+	// A tree that renamed or removed an unexported identifier an in-package harness file refers to must not take all
+	// checks down: harness files with type errors are dropped (and remembered) and the tree is loaded again; only the
+	// runs whose harness lived in a dropped file become inconclusive.
+	dropped := map[string]string{}
+	var pkgs []*packages.Package
+	for round := 0; ; round++ {
+		cfg := &packages.Config{
+			Mode:    packages.LoadAllSyntax,
+			Dir:     repoDir,
+			Overlay: ov,
+			Env:     env,
+			Tests:   false,
 		}
-	})
-	if len(errs) > 0 {
-		sort.Strings(errs)
-		if len(errs) > 10 {
-			errs = errs[:10]
+		var err error
+		pkgs, err = packages.Load(cfg, "./src/...")
+		if err != nil {
+			return nil, err
 		}
-		return nil, fmt.Errorf("package load errors (tree under test does not build):\n%s", strings.Join(errs, "\n"))
+		var errs []string
+		bad := map[string]string{}
+		packages.Visit(pkgs, nil, func(p *packages.Package) {
+			for _, e := range p.Errors {
+				errs = append(errs, e.Error())
+				file := e.Pos
+				if i := strings.Index(file, ".go:"); i >= 0 {
+					file = file[:i+3]
+				}
+				if _, isHarness := files[file]; isHarness && !strings.Contains(file, string(filepath.Separator)+"zzverif"+string(filepath.Separator)+"nd"+string(filepath.Separator)) {
+					if _, seen := bad[file]; !seen {
+						bad[file] = e.Error()
+					}
+				}
+			}
+		})
+		if len(errs) == 0 {
+			break
+		}
+		if len(bad) == 0 || round >= 3 {
+			sort.Strings(errs)
+			if len(errs) > 10 {
+				errs = errs[:10]
+			}
+			return nil, fmt.Errorf("package load errors (tree under test does not build):\n%s", strings.Join(errs, "\n"))
+		}
+		for f, e := range bad {
+			dropped[files[f]] = e
+			delete(ov, f)
+			delete(files, f)
+		}
 	}
 	prog, _ := ssautil.AllPackages(pkgs, ssa.InstantiateGenerics)
 	prog.Build()
@@ -99,6 +126,7 @@ func Load(repoDir, harnessDir string) (*Program, error) {
 	for fn := range ssautil.AllFunctions(prog) {
 		p.Funcs[fn.String()] = fn
 	}
+	p.DroppedHarness = dropped
 	return p, nil
 }
 
